@@ -116,13 +116,16 @@ def run(ctx):
                 "3 processes x 1 Get over 2 keys (thorough: all; quick: all 2-process ones and simulated 3-process ones), and every "
                 "Acquire/Release/cancel event sequence to depth 7 (quick: 5) for capacities 0..2 (3 processes, <= 3 Acquires each, contexts live or "
                 "already done -- at most 2 already-done ones per sequence), forced on the real code. "
-                "G: every sequential call sequence of <= 4 Gets over 3 keys x every zero-key subset on all four instantiations. "
+                "G: every sequential call sequence of <= 4 Gets over 3 keys x every zero-key subset on all nine instantiations. "
                 "Contention scenario (SemaContend.tla): K > N contenders, barrier, cancel all, no Release, thousands of rounds under -race. "
                 "T: race-detector stress without shared instrumentation; stamped invoke/return logs validated by OnceTrace / "
                 "SemaLinTrace / PoolTrace. distinct_nontrivial = distinct schedules / event sequences replayed")
     ctx.assumptions += [
-        "instantiations OnceConstructor[string,*int], [string,error], [string,any], [int,*int]; the constructor returns a fresh "
-        "distinguishable value per call, or the zero value of V (nil pointer / nil interface) for the keys in the model's zero-key set",
+        "instantiations OnceConstructor[string,*int], [string,error], [string,any], [int,*int], [string,any] holding FUNCTION values "
+        "(func() any -- the loader's own type --, func(), func() int), [string,func() int], [string,struct with a func field], "
+        "[string,chan int], [string,map[string]int]; the constructor returns a fresh distinguishable value per call, or the zero value "
+        "of V for the keys in the model's zero-key set; function / chan / map values are identified by their pointer word without being "
+        "invoked, and every constructed function counts its invocations: the library must never call a value it stores",
         "gates: syncutil.VerifGate points once.miss / once.stored (build tag verif) and the constructor; no gate between Load hit and the loader call",
         "context kinds: WithCancel, WithDeadline/custom DeadlineExceeded, custom context with its own error, WithCancelCause, "
         "WithTimeoutCause / WithDeadlineCause (expired, self-expiring in the stress, or ended through a cause-cancelled parent), "
@@ -227,8 +230,9 @@ def run(ctx):
 
     # ------------------------------------------------------ 3. schedule replay
     b_plain.result()
-    # Instantiations: every schedule runs on one of OnceConstructor[string,*int] / [string,error] /
-    # [string,any] / [int,*int] ("cycle"); the sequential call sequences run on all four.
+    # Instantiations: every schedule runs on one of the nine instantiations of once.go ("cycle": pointer, error, any,
+    # int keys, any holding function values, func() int, struct with a func, chan, map); the sequential call
+    # sequences run on all of them.
     rjobs = [(["c17", "replay-once", d / "once_sched_2.ndjson", ctx.scratch / "once2.res", 1, "cycle"], "once2.res"),
              (["c17", "replay-once", d / "once_sched_3.ndjson", ctx.scratch / "once3.res", 1, "cycle"], "once3.res"),
              (["c17", "replay-once", d / "once_seq.ndjson", ctx.scratch / "onceseq.res", 1, "all"], "onceseq.res")]
@@ -361,7 +365,7 @@ def replay(ctx, path):
     vf = ctx.scratch / "one.ndjson"
     vf.write_text(json.dumps(vec) + "\n")
     inst = "ptr"
-    for name in ("error", "any", "intkey"):
+    for name in ("error", "any", "intkey", "anyfn", "fn", "box", "chan", "map"):
         if r.get("key", "").endswith("[%s]" % name):
             inst = name
     args = ["c17", mode, vf, ctx.scratch / "one.res", 1] + ([0, 1] if mode == "replay-sema" else [inst])
